@@ -1042,7 +1042,19 @@ def _decorate_new_with_invariants(new_func: CallableT) -> CallableT:
 
     def wrapper(*args, **kwargs):  # type: ignore
         """Pass the arguments to __new__ and check invariants on the result."""
-        instance = new_func(*args, **kwargs)
+        if (
+            new_func is object.__new__
+            and len(args) > 0
+            and isinstance(args[0], type)
+            and args[0].__init__ is not object.__init__
+        ):
+            # ``object.__new__`` accepts (and ignores) the arguments of the constructor if only ``__init__`` is
+            # overridden, but it rejects them as soon as ``__new__`` is overridden as well -- which is what this
+            # wrapper does in the eyes of the interpreter. We hence must not forward the arguments meant for
+            # the ``__init__`` defined by a sub-class, otherwise the sub-class could not be instantiated anymore.
+            instance = new_func(args[0])
+        else:
+            instance = new_func(*args, **kwargs)
 
         for invariant in instance.__class__.__invariants__:
             _assert_invariant(contract=invariant, instance=instance)
